@@ -335,6 +335,39 @@ Qed.
 
 (* ---- the invariant about futures ---------------------------------------------------------- *)
 
+(* the latest request for key k *)
+Fixpoint last_key (its : list item) (k : nat) : option item :=
+  match its with
+  | [] => None
+  | it :: r => match last_key r k with
+               | Some x => Some x
+               | None => if Nat.eqb (it_key it) k then Some it else None
+               end
+  end.
+
+Lemma last_key_snoc its it k :
+  last_key (its ++ [it]) k = if Nat.eqb (it_key it) k then Some it else last_key its k.
+Proof.
+  induction its as [|x r IH]; simpl.
+  - destruct (Nat.eqb (it_key it) k); reflexivity.
+  - rewrite IH. destruct (Nat.eqb (it_key it) k); reflexivity.
+Qed.
+
+Lemma last_key_in its k it : last_key its k = Some it -> In it its /\ it_key it = k.
+Proof.
+  induction its as [|x r IH]; simpl; [discriminate|].
+  destruct (last_key r k) as [y|].
+  - intros H. injection H as <-. destruct (IH eq_refl). auto.
+  - destruct (Nat.eqb_spec (it_key x) k); [|discriminate]. intros H. injection H as <-. auto.
+Qed.
+
+Lemma last_key_none its k : last_key its k = None -> forall it, In it its -> it_key it <> k.
+Proof.
+  induction its as [|x r IH]; simpl; [intros _ ? []|].
+  destruct (last_key r k) as [y|]; [discriminate|].
+  destruct (Nat.eqb_spec (it_key x) k); [discriminate|]. intros _ it [<-|H]; auto.
+Qed.
+
 (* future f of key k is pending: not done, and the retention cache maps k to it *)
 Definition pend (s : state) (k f : nat) : Prop := is_done s f = false /\ lookup (ret s) k = Some f.
 
@@ -365,6 +398,8 @@ Record PInv (c : cfg) (s : state) (P : list (nat * nat)) : Prop := {
                           dl = (t + c_rt c)%N /\ (0 < c_rt c)%N;
   P_rdone : forall k f o t, lookup (ret s) k = Some f -> lookup (fdone s) f = Some (o, t) ->
             (0 < c_rt c)%N /\ In ((t + c_rt c)%N, k) (rtimers s);
+  P_last : forall k f, lookup (ret s) k = Some f ->
+            exists it, last_key (g_items s) k = Some it /\ it_fid it = f;
   P_dlt : forall f x, lookup (fdone s) f = Some x -> f < nfut s;
   P_win : forall it o t, In it (g_items s) -> lookup (fdone s) (it_fid it) = Some (o, t) ->
             (now s < t + c_rt c)%N -> lookup (ret s) (it_key it) = Some (it_fid it);
@@ -457,6 +492,8 @@ Proof.
       * rewrite Nat.eqb_refl in H1. discriminate.
     + destruct (P_rdone _ _ _ K k' f' o' t' Hret' H2) as [G1 G2]. split; auto.
       unfold resolve. destruct (0 <? c_rt c)%N; simpl; auto. apply in_or_app. now left.
+  - intros k' f' H. rewrite ret_resolve in H. apply (P_last _ _ _ K).
+    destruct (0 <? c_rt c)%N; auto. destruct (Nat.eqb k' k); [discriminate|auto].
   - intros f' x H. rewrite fdone_resolve in H. destruct (Nat.eqb_spec f f') as [<-|Nf].
     + unfold kf in Ekf. injection Ekf as _ <-. now apply (fid_lt s).
     + now apply (P_dlt _ _ _ K f' x).
@@ -622,6 +659,7 @@ Proof.
   - apply (P_ret _ _ _ K).
   - apply (P_timer _ _ _ K).
   - apply (P_rdone _ _ _ K).
+  - apply (P_last _ _ _ K).
   - apply (P_dlt _ _ _ K).
   - apply (P_win _ _ _ K).
   - intros f o t H. destruct (P_spec _ _ _ K f o t H) as [(k & Hs) Ht]. split; eauto.
@@ -964,6 +1002,9 @@ Proof.
       - intros k' f' o' t' H1 H2. destruct (Nat.eqb_spec k k') as [<-|N].
         + injection H1 as <-. apply (P_dlt _ _ _ K) in H2. lia.
         + now apply (P_rdone _ _ _ K k' f' o' t').
+      - intros k' f' H. rewrite last_key_snoc. simpl. destruct (Nat.eqb_spec k k') as [E|N].
+        + injection H as <-. exists it. split; reflexivity.
+        + now apply (P_last _ _ _ K).
       - intros f' x H. apply (P_dlt _ _ _ K) in H. lia.
       - intros x o' t' Hx H Hlt. apply in_app_or in Hx as [Hx|[<-|[]]].
         + pose proof (P_win _ _ _ K x o' t' Hx H Hlt) as G.
@@ -1044,6 +1085,7 @@ Proof.
       { apply existsb_exists. exists ((t0 + c_rt c)%N, k). split; [|simpl; apply Nat.eqb_refl].
         apply filter_In. split; auto. }
       congruence.
+    - intros k f H. rewrite Hret in H. destruct (existsb _ due); [discriminate|]. now apply (P_last _ _ _ K).
     - intros it o t0 Hit H Hlt. rewrite Hret. simpl in Hlt.
       assert (Hlt0 : (now s < t0 + c_rt c)%N) by lia.
       pose proof (P_win _ _ _ K it o t0 Hit H Hlt0) as G.
@@ -1213,6 +1255,7 @@ Proof.
     + apply (P_ret _ _ _ K).
     + apply (P_timer _ _ _ K).
     + apply (P_rdone _ _ _ K).
+    + apply (P_last _ _ _ K).
     + apply (P_dlt _ _ _ K).
     + apply (P_win _ _ _ K).
     + intros f' o t H. destruct (P_spec _ _ _ K f' o t H) as [(k0 & Hs) Ht]. split; auto. exists k0.
@@ -1286,6 +1329,7 @@ Proof.
     + apply (P_ret _ _ _ K).
     + apply (P_timer _ _ _ K).
     + apply (P_rdone _ _ _ K).
+    + apply (P_last _ _ _ K).
     + apply (P_dlt _ _ _ K).
     + apply (P_win _ _ _ K).
     + apply (P_spec _ _ _ K).
